@@ -221,8 +221,7 @@ def validate_trace(tag, base, trace_file, consts=None, timeout=600, heap="4g"):
     """TLC validates one recorded ndjson trace against trace spec `base` (TSpec/Track/Accepted/Report).
     Returns dict(accepted, reject (decoded TRACE-REJECT payload or None), states, wall_s, text)."""
     d = run_dir(tag)
-    consts = dict(consts or {})
-    consts.setdefault("MaxPrice", MAXPRICE)
+    consts = dict({"MaxPrice": MAXPRICE} if consts is None else consts)
     write_model(d, "MC", base, consts,
                 ["SPECIFICATION TSpec", "INVARIANT Report", "CONSTRAINT Track", "POSTCONDITION Accepted"])
     env = dict(os.environ, TRACE=trace_file,
